@@ -207,7 +207,12 @@ def run(case):
                     raise TypeError("bare number with a unit-ful cube")
                 if o["op"] == "to" and impl_err is None and cur.unit is None:
                     raise AttributeError("a cube without a unit has nothing to convert from")
+                old_unit = ref.unit
                 ref = u.Quantity(apply(ref, o, case, False))
+                if o["op"] in ("add", "radd", "sub", "rsub"):
+                    # a sum is reported in the cube's unit (astropy would take the left operand's, which for the
+                    # reflected forms is the other operand's: same physical values, another unit)
+                    ref = ref.to(old_unit)
             except Exception as e:
                 ref_err, ref_at = err_kind(e), k
         if impl_err is None:
